@@ -85,6 +85,36 @@ theorem natBytes_eq (n : Nat) : natBytes n = digitBytes n := by
       omega
   exact this _ (fun c hc => Nat.isDigit_of_mem_toDigits (by decide) (by decide) hc)
 
+/-- different numbers are printed differently -/
+theorem digitBytes_injective {a b : Nat} (h : digitBytes a = digitBytes b) : a = b := by
+  unfold digitBytes at h
+  have hinj : ∀ (l1 l2 : List Char), l1.map (fun c => c.toNat) = l2.map (fun c => c.toNat) → l1 = l2 := by
+    intro l1
+    induction l1 with
+    | nil => intro l2 h; cases l2 with
+      | nil => rfl
+      | cons _ _ => simp at h
+    | cons c cs ih =>
+      intro l2 h
+      cases l2 with
+      | nil => simp at h
+      | cons d ds =>
+        simp only [List.map_cons, List.cons.injEq] at h
+        have hcd : c = d := by
+          apply Char.ext
+          apply UInt32.toNat_inj.mp
+          exact h.1
+        rw [hcd, ih ds h.2]
+  have := hinj _ _ h
+  have ha := @Nat.ofDigitChars_ten_toDigits a
+  have hb := @Nat.ofDigitChars_ten_toDigits b
+  rw [this] at ha
+  rw [← ha, hb]
+
+theorem natBytes_injective {a b : Nat} (h : natBytes a = natBytes b) : a = b := by
+  rw [natBytes_eq, natBytes_eq] at h
+  exact digitBytes_injective h
+
 theorem digitBytes_ne_nil (n : Nat) : digitBytes n ≠ [] := by
   unfold digitBytes
   simp [Nat.toDigits_ne_nil]
